@@ -175,6 +175,10 @@ func runCrashChild(r *runner) {
 		return
 	}
 	c := &crashChild{at: at}
+	var ackFile *os.File // power-loss runs (component power): one marker write(2) per acknowledgement, visible to strace
+	if p := os.Getenv("VERIF_ACK_FILE"); p != "" {
+		ackFile, _ = os.OpenFile(p, os.O_WRONLY|os.O_CREATE|os.O_APPEND, 0o644)
+	}
 	verifhook.Set(c.hit)
 	for {
 		ws, ok := r.next()
@@ -194,6 +198,9 @@ func runCrashChild(r *runner) {
 		}
 		c.inExplicit.Store(false)
 		c.hit("harness.ack")
+		if ackFile != nil {
+			ackFile.Write([]byte{'A'})
+		}
 		c.opPending.Store(false)
 		if ws[0] != "reopen" && ws[0] != "flush" {
 			x.quiesce(before)
